@@ -314,6 +314,18 @@ def export_3MF(mesh, batch_size=4096, compression=zipfile.ZIP_DEFLATED, compress
             models.append(x)
         return str(models.index(x) + 1)
 
+    def object_id(node, data):
+        # a leaf node is an instance of the mesh object itself,
+        # anything with children is a components object
+        if "geometry" in data and len(graph[node]) == 0:
+            return model_id(("geometry", data["geometry"]))
+        return model_id(("node", node))
+
+    # the geometry a node instantiates is stored on its incoming edge
+    node_geometry = {
+        b: data["geometry"] for _, b, data in graph.edges(data=True) if "geometry" in data
+    }
+
     # 3mf archive dict {path: BytesIO}
     file_obj = io.BytesIO()
 
@@ -337,7 +349,7 @@ def export_3MF(mesh, batch_size=4096, compression=zipfile.ZIP_DEFLATED, compress
                     for i, (name, m) in enumerate(geometry.items()):
                         # attributes for object
                         attribs = {
-                            "id": model_id(name),
+                            "id": model_id(("geometry", name)),
                             "name": name,
                             "type": "model",
                             "p:UUID": str(uuid.uuid4()),
@@ -380,13 +392,26 @@ def export_3MF(mesh, batch_size=4096, compression=zipfile.ZIP_DEFLATED, compress
                             continue
 
                         attribs = {
-                            "id": model_id(node),
+                            "id": model_id(("node", node)),
                             "name": node,
                             "type": "model",
                             "p:UUID": str(uuid.uuid4()),
                         }
                         with xf.element("object", **attribs):
                             with xf.element("components"):
+                                if node in node_geometry:
+                                    # a node with children which is also an instance
+                                    xf.write(
+                                        etree.Element(
+                                            "component",
+                                            {
+                                                "objectid": model_id(
+                                                    ("geometry", node_geometry[node])
+                                                ),
+                                                "transform": "1 0 0 0 1 0 0 0 1 0 0 0",
+                                            },
+                                        )
+                                    )
                                 for next, data in graph[node].items():
                                     transform = " ".join(
                                         str(i)
@@ -398,9 +423,7 @@ def export_3MF(mesh, batch_size=4096, compression=zipfile.ZIP_DEFLATED, compress
                                         etree.Element(
                                             "component",
                                             {
-                                                "objectid": model_id(data["geometry"])
-                                                if "geometry" in data
-                                                else model_id(next),
+                                                "objectid": object_id(next, data),
                                                 "transform": transform,
                                             },
                                         )
@@ -419,7 +442,7 @@ def export_3MF(mesh, batch_size=4096, compression=zipfile.ZIP_DEFLATED, compress
                             etree.Element(
                                 "item",
                                 {
-                                    "objectid": model_id(node),
+                                    "objectid": object_id(node, data),
                                     "transform": transform,
                                     uuid_tag: str(uuid.uuid4()),
                                 },
